@@ -80,7 +80,8 @@ def make_project(nfiles=1, nmod=1, nprog=1, nproc=1, ntype=1, nabs=0, nblock=0, 
             L += ["  " + l for l in hl]
             C += hc
             if nsub:
-                L += ["  interface", "    module subroutine smp(z)", "      !! separate module procedure", "      integer :: z", "    end subroutine smp", "  end interface"]
+                L += ["  interface", "    module subroutine smp(z)", "      !! separate module procedure", "      integer :: z", "    end subroutine smp",
+                      "    module subroutine smp2(z)", "      !! second separate module procedure", "      integer :: z", "    end subroutine smp2", "  end interface"]
             placed = True
         L += ["contains"] + ["  " + l for l in C] + [f"end module mod{m}"]
         units.append("\n".join(L))
@@ -89,7 +90,9 @@ def make_project(nfiles=1, nmod=1, nprog=1, nproc=1, ntype=1, nabs=0, nblock=0, 
             par = "mod1" if s == 1 else f"mod1:submod{s - 1}"
             L = [f"submodule ({par}) submod{s}", f"  !! doc of submodule {s}"] + ([f"  integer :: snlv{s}", f"  namelist /subnl{s}/ snlv{s}", "  !! submodule-level namelist"] if nnl else []) + ["contains"]
             if s == 1:
-                L += ["  module subroutine smp(z)", "    !! implementation", "    integer :: z", "  end subroutine smp"]
+                L += ["  module subroutine smp(z)", "    !! implementation", "    integer :: z", "  end subroutine smp",
+                      # ... and one written in the short form that repeats nothing of the interface
+                      "  module procedure smp2", "    !! implementation in the short form", "  end procedure smp2"]
             else:
                 L += [f"  subroutine shelper{s}()", "    !! helper", f"  end subroutine shelper{s}"]
             L += [f"end submodule submod{s}"]
